@@ -300,6 +300,27 @@ func c18Run(input string) string {
 		} else {
 			res["tamper"] = "none"
 		}
+	case "respell", "duprespell":
+		// another base64url SPELLING of a genuine disclosure (a line break inside, or the unused bits of the last character
+		// set): it decodes to the same bytes but is not the string the issuer committed to. Presented instead of the
+		// genuine one (respell) or next to it (duprespell).
+		if len(chosen) > 0 {
+			k := c.Sel % len(chosen)
+			d := chosen[k]
+			alt := d[:len(d)/2] + "\n" + d[len(d)/2:]
+			if c.Sel%2 == 1 && len(d)%4 != 0 {
+				const alphabet = "ABCDEFGHIJKLMNOPQRSTUVWXYZabcdefghijklmnopqrstuvwxyz0123456789-_"
+				i := strings.IndexByte(alphabet, d[len(d)-1])
+				alt = d[:len(d)-1] + string(alphabet[i^1])
+			}
+			if c.Tamper == "respell" {
+				chosen[k] = alt
+			} else {
+				chosen = append(chosen, alt)
+			}
+		} else {
+			res["tamper"] = "none"
+		}
 	case "alter":
 		if len(chosen) > 0 {
 			k := c.Sel % len(chosen)
@@ -491,6 +512,8 @@ func c18Gen(r *Rng, tier string) []string {
 			c.Tamper = "dup"
 		case 2:
 			c.Tamper = "alter"
+		case 3:
+			c.Tamper = r.Pick([]string{"respell", "duprespell"})
 		}
 		if r.N(4) == 0 {
 			c.HB = 1 + r.N(8)
